@@ -470,6 +470,14 @@ func (e *Enc) typeAssume(st *State, lf Leaf, t string) {
 
 func (e *Enc) storeLoc(st *State, l *Loc, v *Val) {
 	leaves := e.TI.shape(l.T)
+	if len(leaves) == 1 && len(v.L) == 0 && v.Clos != nil && len(v.Clos.Bind) == 0 && len(v.Clos.Fn.FreeVars) == 0 {
+		// a function value without captured variables (a package-level function or method expression) is a constant:
+		// it is stored as a non-nil reference that stands for that function. Reading it back gives a plain function value
+		// (a call through it is a call of an unknown function value).
+		c := e.declConst(sym("funcref!"+v.Clos.Fn.String()), "Int")
+		e.assert("(not (= " + c + " 0))")
+		v = &Val{T: v.T, L: []Sc{{c, "Int"}}}
+	}
 	if len(leaves) != len(v.L) {
 		if v.Loc != nil || v.Clos != nil {
 			e.unsupportedf("store of an interior pointer or closure into memory (%s)", typeStr(l.T))
